@@ -127,6 +127,9 @@ class World:
         self.ulog = []
         self.next_pid = 0
         self.next_hid = 0
+        self.rlog = []             # harness-side future log: ["resolve", tick, time, f, v] / ["wait", tick, time, pid, fexpr]
+        self.hid_owner = {}        # hook list id -> creation seq of the owning event
+        self.pid_event = {}        # pid -> creation seq of the event whose handler started it
         self.created = []          # harness-side record of every Event it created: [seq, created_at_clock, time, daemon, target]
         self.seq_of = {}           # id(event) -> creation sequence number
 
@@ -159,6 +162,8 @@ def build_world(script):
 
     w = World(script)
     w.keep = []
+    sim_clock = [None]
+    w.sim_clock = sim_clock
     prerun = [True]
     w.prerun = prerun
 
@@ -178,6 +183,8 @@ def build_world(script):
         if e.get("label", -1) >= 0:
             w.labels[e["label"]] = ev
         w.seq_of[id(ev)] = len(w.created)
+        if hooks:
+            w.hid_owner[hid] = len(w.created)
         w.keep.append(ev)
         w.created.append([len(w.created), now_ns if not prerun[0] else None, now_ns + e["dt"], e["daemon"], e["target"]])
         return ev
@@ -188,6 +195,7 @@ def build_world(script):
             if ev is not None:
                 ev.cancel()
         elif x[0] == "resolve":
+            w.rlog.append(["resolve", len(w.rlog), sim_clock[0].now.nanoseconds if sim_clock[0] else 0, x[1], x[2]])
             w.fut(x[1]).resolve(x[2])
         elif x[0] == "crash":
             w.entities[x[1]]._crashed = x[2]
@@ -222,6 +230,7 @@ def build_world(script):
                 return out
             pid = w.next_pid
             w.next_pid += 1
+            w.pid_event[pid] = w.seq_of.get(id(event))
             return self._process(pid, beh[1], beh[2])
 
         def _steps(self, pid, steps):
@@ -236,6 +245,7 @@ def build_world(script):
                         got = yield s[1], effs
                     w.ulog.append(["resume", self.now.nanoseconds, pid, val_json(got)])
                 elif s[0] == "wait":
+                    w.rlog.append(["wait", len(w.rlog), self.now.nanoseconds, pid, s[1]])
                     got = yield eval_f(s[1])
                     w.ulog.append(["resume", self.now.nanoseconds, pid, val_json(got)])
                 elif s[0] == "eff":
@@ -299,6 +309,7 @@ def run_script(script, mode="plain", control_script=None):
         if ps["cancel"]:
             ev.cancel()
     pops = []
+    w.sim_clock[0] = sim._clock
     w.prerun[0] = False
     instrument_pops(sim, pops, script["fuel"], w)
     if mode == "control-idle":
@@ -319,7 +330,8 @@ def run_script(script, mode="plain", control_script=None):
         if mode == "tracing":
             event_mod.disable_event_tracing()
     cancelled_ever = [w.seq_of[id(ev)] for ev in w.keep if ev._cancelled]
-    return dict(status=status, pops=pops, ulog=w.ulog, created=w.created, cancelled_ever=cancelled_ever, clock=sim._clock.now.nanoseconds,
+    return dict(status=status, pops=pops, ulog=w.ulog, created=w.created, cancelled_ever=cancelled_ever, rlog=w.rlog,
+                hid_owner={str(k): v for k, v in w.hid_owner.items()}, pid_event={str(k): v for k, v in w.pid_event.items()}, clock=sim._clock.now.nanoseconds,
                 processed=sim._events_processed, ncancelled=sim._events_cancelled,
                 heap=sim._event_heap.size(), primary=sim._event_heap._primary_event_count)
 
